@@ -489,7 +489,8 @@ def w_logout_race(job):
             v = rnd.randbytes(40); known.append(('C_CopyObject', v)); S1.append({'fn': 'C_CopyObject', 's': sref, 'o': src['h'], 'tmpl': x.T({'CKA_TOKEN': True, 'CKA_PRIVATE': True, 'CKA_LABEL': b'k%d' % i, 'CKA_VALUE': v})})
             v = rnd.randbytes(40); known.append(('C_SetAttributeValue', v)); S1.append({'fn': 'C_SetAttributeValue', 's': sref, 'o': tgt['h'], 'tmpl': x.T({'CKA_VALUE': v})})
         S2 = [{'fn': 'C_OpenSession', 'slot': slot}]
-        for i in range(job['iters'] * 3): S2 += [{'fn': 'C_Logout', 's': '$0.h'}, {'fn': 'C_Login', 's': '$0.h', 'user': 1, 'pin': RUSER.hex()}]
+        for i in range(job['iters'] * 4): S2 += [{'fn': 'C_Login', 's': '$0.h', 'user': 1, 'pin': RUSER.hex()}, {'fn': 'X_Sleep', 'us': rnd.choice([0, 50, 200, 500, 1000, 2500])}, {'fn': 'C_Logout', 's': '$0.h'}]      # short logged-in windows: a storing call that got in is likely to see the logout land inside it
+        x.call('C_Logout', s=s0)
         r = x.raw({'fn': 'threads', 'scripts': [S1, S2], 'timeout': 300}); x.call('C_Finalize'); x.close(); x = None
         rvs = {}
         for q, st in zip(S1, r['results'][0]): rvs.setdefault(q['fn'], {}).setdefault(ck.rv(st['rv']), 0); rvs[q['fn']][ck.rv(st['rv'])] += 1
@@ -591,7 +592,7 @@ def run(ctx):
     for backend in ('file', 'db'):
         for sp in SPELLINGS:
             for cfg in cfgs: jobs.append(dict(common, kind='perm', backend=backend, umask=sp, cfg=cfg))
-    for i in range(ctx.q(6, 24)): jobs.append(dict(common, kind='logout-race', backend='file' if i % 3 else 'db', seed=ctx.seed * 1000 + 700 + i, iters=ctx.q(12, 25), yield_p=[0.2, 0.04, 0.5][i % 3], yield_us=[150, 8000, 40][i % 3], umask='default', cfg='asan'))
+    for i in range(ctx.q(8, 32)): jobs.append(dict(common, kind='logout-race', backend='file' if i % 3 else 'db', seed=ctx.seed * 1000 + 700 + i, iters=ctx.q(25, 40), yield_p=[0.2, 0.04, 0.5][i % 3], yield_us=[150, 8000, 40][i % 3], umask='default', cfg='asan'))
     jobs.sort(key=lambda j: 0 if j.get('systematic') else 1)          # the long jobs first
     for part in pmap(dispatch, jobs, ctx.nproc): ctx.merge(part)
     ctx.assumptions += ['scans look for verbatim byte strings of >= 16 bytes (dates: 8 bytes from ~3 million values); transformed leaks are out of reach',
